@@ -125,6 +125,19 @@ fn main() {
             cases::write_lines(&out, &lines);
             println!("cases {}", lines.len());
         }
+        Some("trace-names") => {
+            let inputs = cases::resolve_inputs(&get("inputs", "gen:100"), seed);
+            let cfg = wv::run::Cfg::default();
+            let lines: Vec<_> = inputs.par_iter().flat_map(|i| vec![cases::names_case(i, &cfg, 0), cases::names_case(i, &cfg, 1)]).collect();
+            cases::write_lines(&out, &lines);
+            println!("cases {}", lines.len());
+        }
+        Some("trace-maps") => {
+            let inputs = cases::resolve_inputs(&get("inputs", "gen:100"), seed);
+            let lines: Vec<_> = inputs.par_iter().flat_map(|i| vec![cases::maps_case(i, 0), cases::maps_case(i, 1)]).collect();
+            cases::write_lines(&out, &lines);
+            println!("cases {}", lines.len());
+        }
         Some("digests") => {
             // one line per input: id and digest of  parse ; emit  with the default switches (separate process per call)
             let inputs = cases::resolve_inputs(&get("inputs", "gen:100"), seed);
